@@ -38,6 +38,12 @@ class Journal(object):
     def onOneSecondTimer(self):
         pass
 
+    def setRaftTermAndVote(self, raftCurrentTerm, votedForNodeId):
+        pass
+
+    def getRaftTermAndVote(self):
+        return 0, None
+
 
 class MemoryJournal(Journal):
 
@@ -263,6 +269,18 @@ class FileJournal(Journal):
 
     def getRaftCommitIndex(self):
         return self.__meta.get('raftCommitIndex', 1)
+
+    def setRaftTermAndVote(self, raftCurrentTerm, votedForNodeId):
+        if self.getRaftTermAndVote() == (raftCurrentTerm, votedForNodeId):
+            return
+        self.__meta['raftCurrentTerm'] = raftCurrentTerm
+        self.__meta['votedForNodeId'] = votedForNodeId
+        # A new term or a vote has to be on disk before the node acts on it
+        self.__metaStorer.storeMeta(self.__meta)
+        self.__metaSaved = True
+
+    def getRaftTermAndVote(self):
+        return self.__meta.get('raftCurrentTerm', 0), self.__meta.get('votedForNodeId', None)
 
     def onOneSecondTimer(self):
         if not self.__metaSaved:
